@@ -354,6 +354,131 @@ fn c10_single(cx: &mut Cx, bytes: &[u8], reply: &str)
 	cx.report.compare("model.lex.tokens", &format!("tok {}", hex(bytes)), reply, &lx.canon);
 }
 
+// ---------------------------------------------------------------------------------------------
+// look-ahead: `peek` / `peek_nth` interleaved with `next` (input `peek <hex> <script>`, script = `n` (next), `p` (peek),
+// `0`..`9` (peek_nth) characters)
+
+/// The full look-ahead contract — `peek_nth(i)` is the i-th following item (token, or the stream's error) whenever that item
+/// exists — is violated by the implementation (it buffers `idx` instead of `idx + 1` items: on a fresh tokenizer over `a b c`
+/// `peek_nth(0)` is `None`). No property speaks about `peek_nth` and nothing in the crate calls it, so violations of the FULL
+/// contract are counted in the histogram and noted with their replay input; set this to `true` to make them oracle failures.
+const PEEK_NTH_CONTRACT_IS_ORACLE: bool = false;
+
+fn show_item(x: Option<Result<&Token, &trion::text::token::TokenError>>) -> String
+{
+	match x
+	{
+		None => "none".to_owned(),
+		Some(Ok(t)) => {let i = item_of(t); format!("{} {} {} {}", i.kind, i.line, i.col, i.payload)},
+		Some(Err(e)) => format!("E {} {} {}", e.line, e.col, kind_name(&e.value)),
+	}
+}
+
+fn check_peek(cx: &mut Cx, bytes: &[u8], script: &str)
+{
+	let input = format!("peek {} {script}", hex(bytes));
+	let plain = real_lex(bytes);
+	if plain.panic.is_some() {return;}   // reported by the C10 oracle
+	// the items of the plain run, in the notation of `show_item`
+	let mut items: Vec<String> = plain.toks.iter().map(|i| format!("{} {} {} {}", i.kind, i.line, i.col, i.payload)).collect();
+	if let Some((l, c, k)) = &plain.err {items.push(format!("E {l} {c} {k}"));}
+	let r = guarded(||
+	{
+		let mut tk = Tokenizer::new(bytes);
+		let mut consumed = 0usize;
+		let mut produced: Vec<String> = Vec::new();
+		let mut hard: Option<String> = None;
+		let mut soft: Option<String> = None;
+		let mut looked = 0u64;
+		let mut ended = false;
+		for c in script.chars()
+		{
+			match c
+			{
+				'n' =>
+				{
+					match tk.next()
+					{
+						None => ended = true,
+						Some(x) =>
+						{
+							let is_err = x.is_err();
+							produced.push(show_item(Some(x.as_ref())));
+							consumed += 1;
+							if is_err {ended = true;}
+						},
+					}
+				},
+				_ =>
+				{
+					let idx = if c == 'p' {0} else {c.to_digit(10).unwrap() as usize};
+					let got = if c == 'p' {show_item(tk.peek())} else {show_item(tk.peek_nth(idx))};
+					looked += 1;
+					// after the error item has been handed out the stream is over
+					let want = if ended {"none".to_owned()} else {items.get(consumed + idx).cloned().unwrap_or_else(|| "none".to_owned())};
+					if got != want
+					{
+						let what = format!("after {consumed} next() calls {} = {got}, item {} of the stream is {want}", if c == 'p' {"peek()".to_owned()} else {format!("peek_nth({idx})")}, consumed + idx);
+						// `peek` is what the parser relies on; a wrong item from `peek_nth` is a wrong answer, a missing one is the known off-by-one
+						if c == 'p' || got != "none" {hard.get_or_insert(what);} else {soft.get_or_insert(what);}
+					}
+				},
+			}
+		}
+		// drain: whatever was looked at, the sequence handed out by next() is the plain one
+		loop
+		{
+			match tk.next()
+			{
+				None => break,
+				Some(x) => {produced.push(show_item(Some(x.as_ref()))); if produced.len() > bytes.len() + 2 {break;}},
+			}
+		}
+		(produced, hard, soft, looked)
+	});
+	match r
+	{
+		Err(p) => cx.report.oracle_fail(input, format!("look-ahead panics: {p}")),
+		Ok((produced, hard, soft, looked)) =>
+		{
+			cx.report.case(Some(&format!("{} {script}", plain.canon)));
+			cx.report.hit_n("look-ahead calls (peek / peek_nth)", looked);
+			if produced != items
+			{
+				cx.report.oracle_fail(input.clone(), format!("look-ahead changes what next() hands out: {produced:?} instead of {items:?}"));
+			}
+			if let Some(w) = hard {cx.report.oracle_fail(input.clone(), format!("look-ahead returns a wrong item: {w}"));}
+			if let Some(w) = soft
+			{
+				cx.report.hit("FINDING peek_nth: returns nothing although the item exists (off by one)");
+				if PEEK_NTH_CONTRACT_IS_ORACLE {cx.report.oracle_fail(input, format!("peek_nth misses an existing item: {w}"));}
+				else if cx.report.notes.iter().filter(|n| n.starts_with("FINDING peek_nth")).count() < 3
+				{
+					cx.report.notes.push(format!("FINDING peek_nth (public API no property speaks about; not an oracle failure): replay `{input}`: {w}"));
+				}
+			}
+		},
+	}
+}
+
+fn peek_section(cx: &mut Cx)
+{
+	let fixed: [(&[u8], &str); 8] = [(b"a b c", "0"), (b"a b c", "p01"), (b"a b c", "210n10n0n0p"), (b"a ?", "1122"), (b"a ?", "pn p0n0".trim()),
+		(b"", "p0 1".trim()), (b"MOVS R0, 1; x: .du8 \"s\";", "9876543210nnp0n1"), (b"1 2 \"", "0p2n1n0np0")];
+	for (b, s) in fixed {let s: String = s.chars().filter(|c| !c.is_whitespace()).collect(); check_peek(cx, b, &s);}
+	let n = if cx.thorough() {60_000} else {12_000};
+	let mut rng = cx.rng.fork();
+	for _ in 0..n
+	{
+		let bytes = random_input(&mut rng);
+		let bytes = if bytes.len() > 60 {bytes[..60].to_vec()} else {bytes};
+		let len = 1 + rng.below(14);
+		let script: String = (0..len).map(|_| match rng.below(8) {0 | 1 | 2 => 'n', 3 => 'p', _ => char::from_digit(rng.below(5) as u32 + if rng.chance(1, 10) {5} else {0}, 10).unwrap()}).collect();
+		check_peek(cx, &bytes, &script);
+	}
+	cx.report.hit_n("look-ahead scripts", n as u64 + 8);
+}
+
 fn run_c10(cx: &mut Cx)
 {
 	cx.report.rule = "exhaustive: every string of up to 4 (quick) / 5 (thorough) symbols over the 22-symbol alphabet \
@@ -371,10 +496,15 @@ tokenizer error implies parser error. non-trivial = at least one token produced;
 				let reply = cx.model.ask(&format!("lex tok {}", hex(&bytes)));
 				c10_single(cx, &bytes, &reply);
 			},
+			["peek", h, script] if unhex(h).is_some() && script.chars().all(|c| c == 'n' || c == 'p' || c.is_ascii_digit()) =>
+			{
+				check_peek(cx, &unhex(h).unwrap(), script);
+			},
 			_ => cx.report.oracle_fail(input.clone(), "unrecognised replay input"),
 		}
 		return;
 	}
+	peek_section(cx);
 	let max_len = if cx.thorough() {5} else {4};
 	for len in 0..=max_len
 	{
